@@ -627,9 +627,20 @@ def class_scenarios(rng, count):
                 b.ret(tup(lit("who@" + cname), inv(b.v("self"), "m")))
                 b.end()
             if rng.random() < 0.4:
-                b.method("s", ["x"] if rng.random() < 0.5 else [], "static")
-                b.ret(tup(lit("static@" + cname), b.Self()))
+                sx = rng.random() < 0.5
+                b.method("s", ["x"] if sx else [], "static")
+                if defined.get("s") and rng.random() < 0.6:
+                    # a static method reaching the superclass's static through super: the receiver stays the class it was called on
+                    how = rng.choice(["call", "value"])
+                    sup_np = defined["s"][-1][1]
+                    if how == "call":
+                        b.ret(tup(lit("static@" + cname), b.Self(), b.superinv("s", *([lit("sx")] if sup_np else []))))
+                    else:
+                        b.var("ss", b.superget("s")); b.ret(tup(lit("static@" + cname), call(b.v("ss"), *([lit("sx")] if sup_np else []))))
+                else:
+                    b.ret(tup(lit("static@" + cname), b.Self()))
                 b.end()
+                defined.setdefault("s", []).append((lvl, sx))
             if rng.random() < 0.4:
                 b.method("init", ["v"], "ctor")
                 if explicit_ctor_levels and rng.random() < 0.7:
